@@ -74,6 +74,7 @@ Begin(s, uop) ==
       [] uop.op = "reopen" -> [s0 EXCEPT !.pc = "cl_sync"]
       [] uop.op = "open"  -> [s0 EXCEPT !.pc = "op_lock"]
       [] uop.op = "cleanup" -> [s0 EXCEPT !.pc = "cu_orphan"]
+      [] uop.op = "close" -> [s0 EXCEPT !.pc = "cl_sync"]
 
 (***************************************************************************)
 (* Checkpoint entry: WalManager::compute_checkpoint_target +               *)
